@@ -87,6 +87,18 @@ CHECKS["C16"] = dict(engine="reload", design_ref="5/C16", category="model_checki
    technique="Reload.tla model-checked (published only grows, current = Fresh(last good document)); TLC emits ALL document histories up to the bound; each is replayed on one real YAML/JSON loader instance and on a long-lived loader.Loader, next to fresh instances; Trace_Reload.tla judges every load and probe",
    text="All histories (length <= 2 quick, <= 3 thorough plus sampled length 4) over a pool of 14 documents - dropping prefix_deny / prefix_allow / both, removing or reordering users and secrets, stripping a user's commands/services/groups/authenticator/accounter, unparsable text, type errors, missing users or secrets - are fed to one loader instance through Unmarshal and Load(path), in YAML and JSON. After every load TLC compares the published value with what a fresh real loader publishes for the same text, checks that bad documents publish nothing and that no earlier published value changed, and compares lookups (served?, key, visible users) of the long-lived Loader with a fresh Loader.",
    note="Trusted: TLC, Go's encoding/json as normal form for comparing configurations. The fsnotify watcher is not driven (it calls the same Load). The document pool is fixed; histories over it are exhaustive to the stated length.")
+LIFE_TECH = ("Lifecycle.tla (accept loop, connection goroutines, wait group, cancellation, read deadlines) model-checked by TLC for safety and, under fairness, "
+             "for the liveness property cancelled ~> returned; TLC-emitted schedules of environment actions replayed on the real Serve with a fake listener, gates and a logical "
+             "clock; Trace_Lifecycle.tla judges the observed event order")
+CHECKS["C17"] = dict(engine="lifecycle", design_ref="5/C17", category="model_checking", technique=LIFE_TECH,
+   text="All orders of offer / goroutine start / packet / partial octet / EOF / handler completion / deadline expiry / accept timeout / cancel for 2-3 connections are explored on Lifecycle.tla (ServeReturnsLast, DeadlineArmed invariants; ShutdownCompletes under fairness; defect switches addInGoroutine, noDeadline, noWait each break one). One schedule per explored environment transition, pacing schedules (one octet just before each deadline), accept faults and seeded random schedules are replayed on the real Serve: when Serve returns the listener is closed and every accepted connection's goroutine has finished with its connection closed and no handler running; every blocking read has a finite deadline; a connection still mid-packet after the deadline armed for that packet has expired is a violation.",
+   note="Trusted: TLC, the fake listener/connection/clock, the verif hooks serve.add / conn.done / serve.ret. Real time is not modelled (logical clock); goroutine scheduling between two environment actions is the Go runtime's. 'Serve has not returned' is never inferred from a time-out.")
+CHECKS["C20"]["engine"] = "server+lifecycle"
+CHECKS["C20"]["technique"] = CHECKS["C20"]["technique"] + "; Serve-level part: " + LIFE_TECH + " (all four gauges read after Serve returned)"
+CHECKS["C20"]["text"] = CHECKS["C20"]["text"] + " Serve level: after every replayed schedule (refused connections, accept faults, shutdown with open connections, abandoned exchanges) the four gauges serve_accepted, handle_handlers, sessions_active and the connection-goroutine gauge are read once Serve has returned and must be back at their values before the schedule, never negative."
+CHECKS["C20"]["note"] = SERVER_NOTE
+CHECKS["C14"]["engine"] = "ref+lifecycle"
+CHECKS["C14"]["text"] = CHECKS["C14"]["text"] + " Accept loop: injected temporary non-timeout Accept errors (EMFILE) must not make Serve return; connections offered afterwards are still served."
 CHECKS["C07"]["engine"] = "server+ref"
 CHECKS["C07"]["technique"] = CHECKS["C07"]["technique"] + "; reference-server part: " + REF_TECH + "counts handler invocations and written packets per request for every handler path and configuration"
 CHECKS["C07"]["text"] = CHECKS["C07"]["text"] + " Reference level: the same count on the real reference server for every AAA path (well-formed, malformed, non-ASCII, out-of-place requests; users with and without authenticator/accounter/groups), with Handlers.tla predicting the single reply."
@@ -96,6 +108,8 @@ CHECKS["C05"] = dict(engine="framing", design_ref="5/C05", category="model_check
    note="Trusted: TLC, the scripted net.Conn (returns exactly the scripted chunk per Read). Chunkings and body lengths are seeded samples; exhaustive only in the scaled model.")
 
 ENGINES = [
+ {"name": "lifecycle", "path": "lib/lifecycle_family.py, lib/combo.py + spec/Lifecycle.tla, MC_Lifecycle.tla, Trace_Lifecycle.tla + harness/life.go, fakenet.go (logical clock)",
+  "serves_properties": ["C17", "C20", "C14"], "kind_free_text": "safety + liveness model checking, schedule replay on the real Serve"},
  {"name": "reload", "path": "lib/reload_family.py + spec/Reload.tla, MC_Reload.tla, Trace_Reload.tla + harness/reload.go",
   "serves_properties": ["C16"], "kind_free_text": "exhaustive document histories replayed on real loaders, fresh-vs-reloaded comparison"},
  {"name": "ref", "path": "lib/ref_family.py, lib/refgen.py, lib/combo.py + spec/Handlers.tla, Authz.tla, Regex.tla, Admission.tla, Msgs.tla, Trace_Ref.tla + harness/ref.go, caplog.go",
